@@ -28,4 +28,25 @@ int cmd_vatti(const Args& a) {
   return 0;
 }
 Reg reg_vatti("vatti", cmd_vatti);
+
+// "verts": vertex flags assigned by AddPaths_ (hook H3) for random closed and open paths with plateaus, duplicates and closing vertices
+thread_local std::vector<std::string>* g_vrows = nullptr; thread_local int g_open = 0;
+void vert_cb(int n, const long long* v) {
+  if (n >= 0) { if (n == 0) g_vrows->clear(); g_open = (int)v[4]; g_vrows->push_back(jints({v[0], v[1], v[2]})); return; }
+  (*g_os) << Ev("Verts").kn("open", g_open).kv("v", jarr(g_vrows->begin(), g_vrows->end(), [](const std::string& s) { return s; })).str() << "\n";
+}
+int cmd_verts(const Args& a) {
+  Rng r((uint64_t)argi(a, "seed", 1)); long long n = argi(a, "n", 100);
+  std::ofstream os(args(a, "out", "/dev/stdout")); std::vector<std::string> rows; g_os = &os; g_vrows = &rows; Clipper2Lib::verif::vertex_fn = vert_cb;
+  for (long long b = 0; b < n; ++b) {
+    int ny = (int)r.range(2, 5);   // few distinct y values: many plateaus
+    auto mk = [&]() { Path64 p; int nv = (int)r.range(2, 9); for (int i = 0; i < nv; ++i) { Point64 q((int64_t)r.range(0, 9), (int64_t)r.range(0, ny)); p.push_back(q); if (r.range(0, 5) == 0) p.push_back(q); } if (r.range(0, 4) == 0) p.push_back(p[0]); return p; };
+    Clipper64 c; Paths64 S = {mk(), mk()}, O = {mk()}, C = {mk()};
+    c.AddSubject(S); c.AddOpenSubject(O); c.AddClip(C);
+    ReuseableDataContainer64 rd; rd.AddPaths(C, PathType::Clip, false); rd.AddPaths(O, PathType::Subject, true);
+  }
+  Clipper2Lib::verif::vertex_fn = nullptr;
+  return 0;
+}
+Reg reg_verts("verts", cmd_verts);
 }
